@@ -443,15 +443,15 @@ func runC12(c *Ctx) {
 				if res.Len() == 1 {
 					rv = call
 				} else {
-					for _, r := range *call.Referrers() {
+					for _, r := range usersOf(call) {
 						if ex, ok := r.(*ssa.Extract); ok && ex.Index == idx {
 							rv = ex
 						}
 					}
 				}
 				used := false
-				if rv != nil && rv.Referrers() != nil {
-					for _, r := range *rv.Referrers() {
+				if rv != nil {
+					for _, r := range usersOf(rv) {
 						if _, dbg := r.(*ssa.DebugRef); !dbg {
 							used = true
 						}
